@@ -11,7 +11,7 @@ AUDIT = "OxyModel/Audit/C02.lean"
 THEOREMS = ["C02.C02_refines_set", "C02.C02_refines_set_rebalancer", "C02.C02_selected_is_member",
             "C02.C02_removed_never_selected", "C02.C02_added_within_rotation", "C02.C02_failed_add_noop", "C02.C02_remove_unknown_noop",
             "C02.C02_empty_is_error", "C02.C02_zero_is_error_partial", "C02.C02_zero_is_error_counterexample",
-            "C02.C02_handout_fresh", "C02.C02_downstream_mutation_noop"]
+            "C02.C02_handout_fresh", "C02.C02_any_rewrite_is_modelled", "C02.C02_downstream_mutation_noop"]
 RACE = True
 RULE = ("scenario = random history of upsert/update/remove (repeated adds, unknown removes, negative weights) over 3-6 URL strings "
         "drawn from an alphabet in which distinct strings share a (scheme,host,path) key, through a RoundRobin or a Rebalancer over a "
@@ -122,7 +122,7 @@ def gen(rng, tier):
                     if rng.random() < (0.6 if sticky else 0.15):
                         t += " cookie=%s,%s,%s" % rng.choice(keys if rng.random() < 0.85 else allkeys)
                     if rng.random() < 0.5:
-                        t += " mutate=" + rng.choice(["host", "path", "scheme"])
+                        t += " mutate=" + rng.choice(["host", "path", "scheme", "all"])
                     lines.append(t)
                     if "mutate" in t or rng.random() < 0.2:
                         lines.append("servers")
